@@ -31,7 +31,7 @@ type Program struct {
 	Imports   [][]int
 }
 
-var namePool = []string{"a", "b", "c", "m", "n", "z", "x1", "x2", "k_test_helper", "zz", "A", "B"}
+var namePool = []string{"a", "b", "c", "m", "n", "z", "x1", "x2", "k_test_helper", "zz", "Ab", "B0"}
 
 type entity struct {
 	name  string
